@@ -266,6 +266,27 @@ def check(ctx):
                                                 f'indices can reach the extent, or voxels stay empty and the voxel size changes')
         # index positions
         items = idx.elts if (idx is not None and idx.ty == 'tuple' and idx.elts is not None) else None
+        rv = None
+        if items is None and idx is not None:
+            rv = idx.ravel or (idx.unique_of.ravel if idx.unique_of is not None else None)
+        if rv is not None and len(rv[0]) == 3 and len(rv[1]) == 2 and len(shape) == 3 and base.axes == ('flat',):
+            # a row-major linear index into the flattened count array: the multipliers must be the extents of the trailing axes
+            def same_extent(a_, b_):
+                if a_ is None or b_ is None:
+                    return None
+                if a_.sx is not None and a_.sx == b_.sx:
+                    return True
+                if a_.mono is not None and b_.mono is not None and a_.axis is not None and b_.axis is not None and not a_.mono_unknown and not b_.mono_unknown:
+                    return a_.mono.text() == b_.mono.text() and a_.axis == b_.axis
+                return None
+            verdicts = [same_extent(rv[1][j], shape[j + 1]) for j in range(2)]
+            if all(v is True for v in verdicts):
+                items = list(rv[0])
+                ctx.ob('R1', fi, norm_text(e['node']) + ' [linear index]', True, 'row-major linear index built with the extents of the trailing axes')
+            elif any(v is False for v in verdicts):
+                ctx.ob('R1', fi, norm_text(e['node']) + ' [linear index]', False, 'the linear voxel index is built with multipliers that are not the extents of the '
+                                                                                    'trailing axes of the count array: samples land in other voxels')
+                items = list(rv[0])
         if items is None or len(items) != 3:
             ctx.ob('R1', fi, e['node'], None, 'the counts are not written at an (i, j, k) index triple')
         else:
@@ -293,6 +314,8 @@ def check(ctx):
         # R4 counts
         src = val.counts_of if val is not None else None
         ok = src is not None and src.rows is None and (src.colvals is not None) and all(c.digit is not None for c in src.colvals)
+        if not ok and src is not None and src.ravel is not None and rv is not None and src.ravel is rv:
+            ok = all(c.digit is not None for c in src.ravel[0])  # counts of the linear voxel index, written at that index
         same = ok and items is not None and all(x.digit is not None for x in items)
         if e['kind'] == 'add_at':
             # np.add.at(data, (i, j, k), 1): one unbuffered increment per sample
@@ -426,4 +449,8 @@ def check_voxel_maps(ctx):
             ctx.ob('R3', f, n, same if c is not None else None, f'same voxel centre offset {cf_[0]}' if same else
                    f'uses offset {cf_[0]} while Volume.voxel_to_frac_coords uses {c}')
         if not found:
+            deleg = [e for e in itf.events if e['tag'] == 'call' and e['callee'] == fv.qualname and under(f.qualname)(e)]
+            if deleg:
+                ctx.ob('R3', f, deleg[0]['node'], True if c is not None else None, 'converted by Volume.voxel_to_frac_coords itself (same voxel centre)')
+                continue
             ctx.ob('R3', f, q.split('.')[-1], None, 'voxel-centre formula not recognised')
